@@ -809,35 +809,67 @@ def check_koszul_sign(facts, rep):
 
     def dk(t):
         return re.sub(r'\^_ref__', '^', re.sub(r'#(?:i\d+:)?\d+\.\d+', '', show(t, -1000))).replace('&', '').replace('*', '')
-    fam = {}
-    for k, b in facts.bodies.items():
-        if k.startswith(root + '::{closure#0}::{closure#') and k.count('{closure') == 2:
-            for p in SymEx(b).run():
-                if p.end == 'return' and p.ret and p.ret[0] == 'tuple' and len(p.ret[1]) == 3:
-                    fam[k] = [dk(x) for x in p.ret[1]]
-    # i0: degree of the left factor
-    i0 = None
-    for p in SymEx(outer, max_paths=5000).run():
-        for e in p.branches():
-            s = dk(e.term)
-            m = re.match(r'SubWithOverflow\(\(weight\(arg2\.(\d)\.state\) as isize\), arg1\.\^(left|right)\.deg_shift\.0\)\.1$', s)
-            if m:
-                i0 = (m.group(1), m.group(2))
+    # the two edge families, read where they are built: map(keys_out_from(<factor>, <key>), closure) with the closure applied
+    # to a symbolic target key (captures substituted, so everything is in the vocabulary of the per-vertex closure:
+    # arg2 = (k0, l0), arg1.^left / arg1.^right the factors)
+    from symex import apply_closure
     inst = 'TngComplex::connect_edges|d(v x w) = dv x w + (-1)^{deg v} v x dw'
-    if len(fam) != 2 or i0 is None:
-        rep.indet('E8.F11: edge families of connect_edges outside the recognised fragment: %s, i0 = %s' % (fam, i0))
+    fam = {}
+    src_at_add = set()
+    try:
+        for p in SymEx(outer, havoc_loops=True, max_paths=5000).run():
+            for e in p.calls():
+                n = e.name.split('::')[-1]
+                if n == 'map' and len(e.args) == 2 and strip(e.args[1])[0] == 'closure':
+                    m0 = re.match(r'keys_out_from\(arg1\.\^(left|right), arg2\.([01])\)$', dk(e.args[0]))
+                    if not m0:
+                        continue
+                    for q in apply_closure(e.args[1], [('item',)]) or []:
+                        if q.end == 'return' and q.ret and strip(q.ret)[0] == 'tuple' and len(strip(q.ret)[1]) in (2, 3):
+                            fam[(m0.group(1), m0.group(2))] = [dk(x).replace("('item',)", 'ITEM') for x in strip(q.ret)[1]]
+                if n == 'add_edge' and len(e.args) == 4:
+                    src_at_add.add(dk(e.args[1]))
+    except Exception as ex:
+        rep.indet('E8.F11: connect_edges: %s' % str(ex)[:120])
+        return
+    if len(fam) != 2:
+        rep.indet('E8.F11: edge families of connect_edges outside the recognised fragment: %s' % fam)
         return
     left = right = None
-    for k, (src, tgt, val) in fam.items():
-        m = re.match(r'part_eval\((mul\()?connected\(edge\(arg1\.\^(left|right), arg1\.\^(k0|l0), arg2\), id\(tng\(arg1\.\^(v0|w0)\)\)\)(, from_sign\(from_parity\(\(arg1\.\^i0 as i64\)\)\)\))?, arg1\.\^h, arg1\.\^t\)$', val)
-        if not m:
-            rep.indet('E8.F11: edge value %s' % val[:160])
+    i0 = None
+    for (side, keyidx), comps in fam.items():
+        if len(comps) == 3:
+            src, tgt, val = comps
+        else:
+            tgt, val = comps
+            src = next(iter(src_at_add)) if len(src_at_add) == 1 else '?'
+        m = re.match(r'part_eval\((mul\()?connected\(edge\(arg1\.\^(left|right), arg2\.([01]), ITEM\), id\(tng\(vertex\(arg1\.\^(left|right), arg2\.([01])\)\)\)\)'
+                     r'(, from_sign\(from_parity\(\(SubWithOverflow\(\(weight\(arg2\.([01])\.state\) as isize\), arg1\.\^(left|right)\.deg_shift\.0\)\.0 as i64\)\)\)\))?, arg1\.\^h, arg1\.\^t\)$', val)
+        if not m or m.group(2) != side or m.group(3) != keyidx:
+            rep.indet('E8.F11: edge value %s' % val[:200])
             return
-        rec = {'src': src, 'tgt': tgt, 'side': m.group(2), 'from': m.group(3), 'id_of': m.group(4), 'signed': bool(m.group(1))}
-        if rec['side'] == 'left':
+        rec = {'src': src, 'tgt': tgt, 'side': side, 'from': 'k0' if keyidx == '0' else 'l0',
+               'id_of': {('right', '1'): 'w0', ('left', '0'): 'v0'}.get((m.group(4), m.group(5)), '%s[%s]' % (m.group(4), m.group(5))), 'signed': bool(m.group(1))}
+        if m.group(6):
+            i0 = (m.group(7), m.group(8))
+        if side == 'left':
             left = rec
         else:
             right = rec
+    SRC = 'add(arg2.0, arg2.1)'
+    K0_L0 = 'arg1.^k0_l0'
+    for rec in (left, right):
+        if rec and rec['src'] == SRC:
+            rec['src'] = K0_L0
+    if left and left['tgt'] == 'add(ITEM, arg2.1)':
+        left['tgt'] = 'add(arg2, arg1.^l0)'
+    if right and right['tgt'] == 'add(arg2.0, ITEM)':
+        right['tgt'] = 'add(arg1.^k0, arg2)'
+    if i0 is None and (left and right) and (left['signed'] or right['signed']):
+        rep.indet('E8.F11: sign exponent of connect_edges not found')
+        return
+    if i0 is None:
+        i0 = ('0', 'left')
     probs = []
     if not left or not right:
         probs.append('the two families do not differentiate one factor each')
